@@ -421,7 +421,9 @@ func (txn MapTxn[K, V]) Commit() (m Map[K, V]) {
 		_, kv, _ := iter.Next()
 		m.singleton = &kv
 	default:
-		m.tree = txn.txn.Commit()
+		// The MapTxn can be used further, so the underlying transaction
+		// must not be recycled by the next Txn() on the tree.
+		m.tree = txn.txn.commit()
 		m.hasTree = true
 	}
 	if m.singleton != nil {
